@@ -993,6 +993,13 @@ pub fn gen_parse_cases(rng: &mut Rng, n: usize, out: &mut Vec<String>, st: &mut 
         while i < bytes.len() && bytes[i] & 0x80 != 0 { i += 1 }
         let body = bytes[i + 1..].to_vec();
         let fh = if rng.chance(1, 10) { bytes[0] ^ (1 << rng.below(4)) } else { bytes[0] };
+        if mode == 2 && body.len() <= 64 {
+            // EVERY proper prefix of a valid body: each length check of each parser is met exactly at its boundary
+            for k in 0..body.len() {
+                out.push(parse_case(ver, fh, &body[..k], st));
+            }
+            continue;
+        }
         let body = if mode == 1 { body } else { mutate_bytes(rng, body) };
         out.push(parse_case(ver, fh, &body, st));
     }
